@@ -28,6 +28,7 @@ type Options struct {
 	MaxPaths     int64
 	Deadline     time.Time
 	Explore      bool // exploring scheduler
+	Livelock    bool // report UNWIND paths as non-termination candidates
 	SchedBudget  int
 	ChanScale    int
 	ChanScaleMin int
@@ -301,6 +302,13 @@ func (w *Worker) collect(st *pathState) {
 		} else {
 			_, m := w.solver.CheckModel(st.pc, vars)
 			st.events = append(st.events, Event{Kind: EvKnownObserved, ID: outKnown, Model: m, Msg: kind + ": " + desc})
+		}
+	}
+	if st.outcome == OutUnwind && e.Opts.Livelock {
+		// a loop bound that every run of the unchanged code stays far below was
+		// exceeded: candidate non-termination, to be confirmed natively
+		if res, m := w.solver.CheckModel(st.pc, st.inputVars()); res == sym.Sat {
+			outViol = &Violation{Kind: "livelock", ID: "livelock", Msg: st.msg, Model: m, Inputs: st.inputs, Trace: st.trace}
 		}
 	}
 	e.mu.Lock()
